@@ -18,7 +18,7 @@ def run(chk, replay=None):
     ev1 = cc.replay(chk, cases, want)
     s = [c for c in cases if c["ph"] == "ata" and c["ctor"] and c["dinlen"]]
     chk.ev.sample({"spec_case": {k: s[0][k] for k in ("cls", "a", "dinlen", "doutlen")}})
-    events = record_random(chk, cases, 40 if chk.quick else 1500)
+    events = record_random(chk, cases, 40 if chk.quick else 4000)
     events = ev1 + events
     cc.judge(chk, events, want, "c03tr")
     chk.ev.sample({"event": events[len(events) // 3]})
